@@ -130,7 +130,7 @@ def check(ctx):
                             return True
                         return False
                     return pred
-                start_succ = [t for t, l in cfg.succ[nid] if l != "exc"]
+                start_succ = [t for t, l in cfg.succ[nid] if l not in ("exc", "excp")]
                 ok_map = all(must_pass(cfg, has({need_map, "rederive"}), start=t) for t in start_succ) if start_succ else True
                 # effects in the same node or earlier on every path also count for removal (map popped before list)
                 if not ok_map:
@@ -285,7 +285,7 @@ def check(ctx):
     ctx.floor("data_write_sites", len(writes), 2)
     for w in writes:
         ok = all(must_pass(cfg, lambda n: n.kind == "stmt" and ast.unparse(n.ast) == "self.refresh()", start=t)
-                 for t, l in cfg.succ[w.id] if l != "exc")
+                 for t, l in cfg.succ[w.id] if l not in ("exc", "excp"))
         ctx.decide(ok, "R-MUSTPASS/refresh", f"{msg.qual}.update_avps", msg.where(w.ast),
                    f"`{ast.unparse(w.ast)[:50]}` is followed by refresh() on every path",
                    f"after `{ast.unparse(w.ast)[:60]}` the Message Length is not refreshed on every path to the return", key=w.ast)
